@@ -112,6 +112,12 @@ func c19Canon(sn *snode, d *dnode, b *strings.Builder, depth int, sortKids bool)
 		case ks != nil && ks.kw == "container":
 			c19Canon(ks, k, b, depth+1, true)
 		default:
+			// integers are compared by value: "+7", "007" and "7" are one value
+			if ks != nil && ks.rtype != nil && (ks.rtype.Kind == "int" || ks.rtype.Kind == "uint") && len(k.vals) == 1 {
+				if v, ok := yang.ParseInteger(k.vals[0]); ok {
+					k = &dnode{name: k.name, vals: []string{v.String()}, kids: k.kids}
+				}
+			}
 			c19Canon(nil, k, b, depth+1, true)
 		}
 	}
